@@ -12,7 +12,7 @@
 (* Free = TRUE additionally explores every *legal* padding / output          *)
 (* alignment (not only ppci's), showing the invariants do not depend on      *)
 (* those choices.                                                            *)
-EXTENDS Linker, TLC
+EXTENDS Linker, TLC, SequencesExt
 
 CONSTANTS Family, Sizes, Aligns, Free, NObj
 
@@ -76,8 +76,8 @@ SymOpts == {Opt(FALSE, "", <<>>), Opt(TRUE, "", <<>>), Opt(FALSE, "y", <<>>),
 (* up to two relocations per object, every in-bounds site, types of 1 / 2    *)
 (* bytes; type "nofit" stands for a value that does not fit its field        *)
 RelChoices(sz) == {<<>>}
-    \cup {<<R(t[1], 10, "a", off, t[2])>> : t \in {<<"t1", 1>>, <<"t2", 2>>, <<"nofit", 1>>},
-                                             off \in {f \in 0..sz : f + t[2] <= sz}}
+    \cup UNION {{<<R(t[1], 10, "a", off, t[2])>> : off \in {f \in 0..sz : f + t[2] <= sz}} :
+                     t \in {<<"t1", 1>>, <<"t2", 2>>, <<"nofit", 1>>}}
     \cup {<<R("t1", 10, "a", o1, 1), R("t2", 20, "a", o2, 2)>> : o1 \in 0..(sz - 1), o2 \in {f \in 0..sz : f + 2 <= sz}}
 RelObj(o, sz, al, rels) == O(<<S("a", sz, al)>>,
     <<Y(10, GName[o], "global", TRUE, "a", 0), Y(20, "l", "local", TRUE, "a", sz)>>, rels, -1)
@@ -93,8 +93,11 @@ Inputs  == CASE Family = "place" -> PlaceInputs [] Family = "syms" -> SymInputs 
 Layouts == CASE Family = "place" -> PlaceLayouts [] Family = "syms" -> SymLayouts [] Family = "reloc" -> RelLayouts
 Opts    == CASE Family = "place" -> PlaceOpts [] Family = "syms" -> SymOpts [] Family = "reloc" -> PlaceOpts
 
-MCInit == /\ inp \in Inputs /\ lay \in Layouts /\ opt \in Opts
-          /\ ~(opt.partial /\ lay.on)                       \* "Can only apply layout in non-partial links"
+\* "Can only apply layout in non-partial links"
+MCJobs == SetToSeq({[inp |-> x, lay |-> y, opt |-> z] : x \in Inputs, y \in Layouts,
+                    z \in {w \in Opts : TRUE}} \ {[inp |-> x, lay |-> y, opt |-> z] :
+                        x \in Inputs, y \in {w \in Layouts : w.on}, z \in {w \in Opts : w.partial}})
+MCInit == /\ job \in 1..Len(Jobs)
           /\ ph = "start" /\ nxt = 0 /\ sub = NoSub /\ dst = StartDst /\ placed = <<>> /\ cur = NoCur /\ fail = ""
 
 (* every legal choice of the free parameters, within one alignment unit of slack *)
@@ -110,7 +113,7 @@ MCRelocate == \E r \in 1..Len(dst.rels) :
     \/ dst.rels[r].type # "nofit" /\ Relocate(r)
     \/ dst.rels[r].type = "nofit" /\ RelocateFails(r)
 
-MCNext ==
+MCWork ==
     \/ Start
     \/ \E o \in 1..Len(inp) :
           \/ (IF Free THEN FreeInject(o) ELSE InjectSections(o, DesignPads(o), DesignAligns(o)))
@@ -121,8 +124,8 @@ MCNext ==
     \/ AlignTo \/ CloseMemory \/ MemoryOverflow \/ EmptyLayout
     \/ CheckUndefined \/ UndefinedFound \/ RelaxNone
     \/ MCRelocate
-    \/ Terminated
+MCNext == MCWork \/ Terminated
 
 \* every job ends: a state without successor other than the final stutter is finished
-NoStuck == Finished \/ ENABLED (MCNext /\ ~Terminated)
+NoStuck == Finished \/ ENABLED MCWork
 =============================================================================
